@@ -40,6 +40,44 @@ def conformance(raw):
                 if st is None or ld is None or ld < st: return 'reader %s: outermost unlock does not store its ctr before loading gp.futex: %s' % (t, ' '.join(ks))
     return None
 
+def conformance_qsbr(raw):
+    """program-order facts the Futex/QsbrFutex.v model relies on, checked on the implementation trace of src/urcu-qsbr.c:
+       reader  (quiescent state / offline): store of its ctr ; load of its waiting flag ; on 1: store waiting 0 ; load gp.futex ; on -1: store gp.futex 0 ; FUTEX_WAKE
+       updater (wait_for_readers): every FUTEX_WAIT on gp.futex follows  store gp.futex -1 ; store waiting 1 for at least one reader ; mb ; loads of reader ctrs ; load gp.futex -> -1"""
+    hist = {}
+    for l in raw.splitlines():
+        p = l.replace(' (fwd)', '').split()
+        if len(p) < 2 or not p[0].isdigit(): continue
+        t, k = p[0], p[1]; loc = p[2] if len(p) > 2 else ''
+        h = hist.setdefault(t, [])
+        base = loc.split('+')[0]
+        if k in ('mb', 'futex_wake') or (k in ('load', 'store', 'futex_wait') and (base == 'gp.futex' or base.startswith('rd') or base.startswith('wt'))):
+            val = None
+            if k == 'store': val = p[3][2:] if len(p) > 3 and p[3].startswith('v=') else None
+            elif k == 'load': val = p[-1]
+            h.append((k, base, val))
+        # reader side
+        if k == 'load' and base == 'wt' + t:
+            if not any(x[0] == 'store' and x[1] == 'rd' + t for x in h[-6:-1]):
+                return 'reader %s looks at its waiting flag without having stored its counter first: %s' % (t, ' '.join('%s:%s' % (x[0], x[1]) for x in h[-6:]))
+        if k == 'load' and base == 'gp.futex' and len(h) >= 2 and any(x[1] == 'wt' + t for x in h[-4:-1]):
+            prev = [x for x in h[-4:-1] if x[1] == 'wt' + t]
+            if not (prev and prev[-1][0] == 'store' and prev[-1][2] == '0' and any(x[0] == 'load' and x[2] == '1' for x in prev)):
+                return 'reader %s loads gp.futex without the sequence load waiting -> 1 ; store waiting 0: %s' % (t, ' '.join('%s:%s=%s' % x for x in h[-5:]))
+        if k == 'futex_wake' and base == 'gp.futex':
+            if not (len(h) >= 3 and h[-2] == ('store', 'gp.futex', '0') and h[-3][0] == 'load' and h[-3][1] == 'gp.futex' and h[-3][2] == '-1'):
+                # a flush of the store may be logged separately; accept store gp.futex 0 anywhere in the last four entries after a load of -1
+                tailh = h[-6:-1]
+                if not (any(x == ('store', 'gp.futex', '0') for x in tailh) and any(x[0] == 'load' and x[1] == 'gp.futex' and x[2] == '-1' for x in tailh)):
+                    return 'thread %s calls FUTEX_WAKE without load gp.futex -> -1 ; store gp.futex 0 before it: %s' % (t, ' '.join('%s:%s=%s' % x for x in h[-6:]))
+        # updater side
+        if k == 'futex_wait' and base == 'gp.futex':
+            di = max([n for n, x in enumerate(h) if x[0] == 'store' and x[1] == 'gp.futex' and x[2] == '-1'] + [-1])
+            seq = ' '.join('%s:%s' % (x[0], re.sub(r'\d+$', 'N', x[1])) for x in (h[di:] if di >= 0 else h[-10:]))
+            if di < 0 or not re.match(r'store:gp\.futex( mb:)*( store:wtN)+( mb:)+( load:rdN)+( mb:)*( load:gp\.futex futex_wait:gp\.futex)+$', seq):
+                return 'updater %s reaches FUTEX_WAIT without the sequence store futex -1 ; store waiting flags ; barrier ; scan ; (load futex ; wait)+ : %s' % (t, seq)
+    return None
+
 def stuck_oracle(p, s, cl, raw):
     if 'DEADLOCK' in raw: return 'stuck state: an application thread is blocked and no choice is enabled at the end of the run (lost wake-up / deadlock)'
     if 'STEP LIMIT' in raw: return 'live-lock: a synchronize_rcu() caller never returns although every reader has left (step limit reached)'
@@ -86,7 +124,7 @@ def run_flavor(ctx, name, src, defs, progs, n, conf=True):
     rs = run_many([[impl, p, s + tail] for p, s in cases], timeout=30)
     nor = 0; slept = 0
     for (p, s), (rc, raw) in zip(cases, rs):
-        o = stuck_oracle(p, s, None, raw) or (G.qsbr_oracle if 'qsbr' in name else G.oracle)(p, s, None, raw) or (conformance(raw) if conf else None)
+        o = stuck_oracle(p, s, None, raw) or (G.qsbr_oracle if 'qsbr' in name else G.oracle)(p, s, None, raw) or (conformance(raw) if conf else None) or (conformance_qsbr(raw) if 'qsbr' in name else None)
         if 'BUG ' in raw or 'ABORT' in raw or 'TIMEOUT' in raw: o = 'abnormal run: ' + raw[-300:]
         if o:
             nor += 1
